@@ -9,7 +9,7 @@ use temporal_rs::options::{Disambiguation, DisplayCalendar, DisplayOffset, Displ
 use temporal_rs::tzdb::FsTzdbProvider;
 use temporal_rs::{Calendar, Duration, Instant, PlainDateTime, TimeZone, ZonedDateTime};
 
-pub const ACTIONS: [&str; 16] = [
+pub const ACTIONS: [&str; 18] = [
     "ok: New_York getter",
     "ok: London add",
     "ok: Tokyo Instant::to_ixdtf_string",
@@ -26,6 +26,8 @@ pub const ACTIONS: [&str; 16] = [
     "a zone whose data file may not be installed yet (error while it is absent, ok afterwards)",
     "install that zone's data file, then call on it: an earlier failure must not stick",
     "format a zoned value through Display while another thread holds the provider lock (and then panics): the text must come out",
+    "Now::plain_datetime_iso in an explicit far zone (Pacific/Kiritimati), between two readings of the clock",
+    "Now::plain_datetime_iso without a zone (the system zone), between two readings of the clock",
 ];
 
 /// The zone whose data appears during a history: an absolute path under the temp dir, private to this process.
@@ -124,6 +126,25 @@ fn act(a: usize, shared: bool) -> String {
         12 => {
             let z = |_: ()| ZonedDateTime::try_new(t, Calendar::default(), TimeZone::IanaIdentifier("america/new_york".into())).unwrap();
             pick!(z(()).hour(), z(()).hour_with_provider(&p))
+        }
+        16 | 17 => {
+            use temporal_rs::Now;
+            let zone = if a == 16 { Some(TimeZone::IanaIdentifier("Pacific/Kiritimati".into())) } else { None };
+            let Some(core_zone) = zone.clone().or_else(|| Now::time_zone_identifier().ok().map(TimeZone::IanaIdentifier)) else {
+                return "no system zone in this environment".into();
+            };
+            if !shared {
+                return "within the two readings".into();
+            }
+            let ns = || std::time::SystemTime::now().duration_since(std::time::UNIX_EPOCH).unwrap().as_nanos() as i128;
+            let core_at = |x: i128| ZonedDateTime::try_new(x, Calendar::default(), core_zone.clone()).and_then(|z| z.to_plain_datetime_with_provider(&p));
+            let before = core_at(ns() - 1_000_000);
+            let got = Now::plain_datetime_iso(zone.clone());
+            let after = core_at(ns() + 1_000_000);
+            match (before, got, after) {
+                (Ok(lo), Ok(g), Ok(hi)) if lo.compare_iso(&g).is_le() && g.compare_iso(&hi).is_le() => "within the two readings".into(),
+                (lo, g, hi) => format!("outside: {:?} not between {:?} and {:?}", g.map(|x| x.to_string()), lo.map(|x| x.to_string()), hi.map(|x| x.to_string())),
+            }
         }
         15 => {
             if shared {
@@ -231,7 +252,7 @@ impl Space for Histories {
             out.lockstep("call returns what it returns alone", &Ok(s["want"].as_str().unwrap_or("").to_string()), &Oc::Ok(s["got"].as_str().unwrap_or("").to_string()), |a, b| a == b && same, || attrs(k));
             state.0 |= h[k] == 8 || h[k] == 9 || h[k] == 11 || h[k] == 15;
             state.1.push(h[k]);
-            out.state(&(state.0, { let mut z: Vec<usize> = state.1.iter().filter(|a| **a < 5 || **a >= 10).map(|a| [0, 1, 2, 0, 3, 9, 9, 9, 9, 9, 1, 1, 9, 4, 4, 1][*a]).collect(); z.sort(); z.dedup(); z }));
+            out.state(&(state.0, { let mut z: Vec<usize> = state.1.iter().filter(|a| **a < 5 || **a >= 10).map(|a| [0, 1, 2, 0, 3, 9, 9, 9, 9, 9, 1, 1, 9, 4, 4, 1, 5, 6][*a]).collect(); z.sort(); z.dedup(); z }));
         }
         if out.want_sample() && has_fault && h.len() >= 2 && h[0] == 8 {
             out.sample(json!({"history": h.iter().map(|a| ACTIONS[*a]).collect::<Vec<_>>()}));
